@@ -15,7 +15,7 @@ from __future__ import annotations
 from vfw.gen.corpus import rng
 
 VERSION = 3
-CONTEXT = {"v1": "tbl", "v2": 3, "flag_t": True, "flag_f": False, "lst": [1, 2, 3], "s_empty": ""}
+CONTEXT = {"v1": "tbl", "v2": 3, "flag_t": True, "flag_f": False, "lst": [1, 2, 3], "s_empty": "", "zero": 0, "lst2": ["alpha", "beta"], "none_v": None}
 
 LITERALS = [
     "select ", "SELECT ", " from ", " FROM ", "a", "b", "col_a", "col_b, ", "1", "1 + 2", " , ",
@@ -171,7 +171,54 @@ LINT_COLS = ["col_a", "b", "c AS d", "t.e", "COUNT(*) as n", "1+2 AS s", "Foo", 
 LINT_WS = [" ", "  ", "\n", "\n    ", "\n  ", ""]
 
 
+GUARDS = ["zero", "flag_f", "not flag_t", "s_empty", "none_v", "v2 > 5", "lst2 | length > 5"]
+RAISERS = [
+    ("{% for i in range(0, 3, zero) %}c{{ i }}, {% endfor %}", "ValueError"),
+    ("{% for k, v in lst2 %}{{ k }} as {{ v }}, {% endfor %}", "ValueError"),
+    ("{{ 1 // zero }}", "ZeroDivisionError"),
+    ("{{ v2 % zero }}", "ZeroDivisionError"),
+    ("{{ lst[7] }}", "Undefined"),
+    ("{{ none_v.attr }}", "UndefinedError"),
+    ("{{ lst2 | first | int('x') // zero }}", "ZeroDivisionError"),
+    ("{{ 'abc' | int(none_v) + 1 }}", "TypeError"),
+    ("{{ lst | batch(zero) | list }}", "ValueError?"),
+    ("{{ '%d' | format(v1) }}", "TypeError"),
+    ("{{ v1.zfill(none_v) }}", "TypeError"),
+    ("{{ lst2 | join(', ') }}", "ok"),
+    ("{{ range(zero - 3) | list | length }}", "ok"),
+    ("{{ {'a': 1}['b'] }}", "Undefined"),
+    ("{{ lst | sum(start=v1) }}", "TypeError"),
+]
+
+
+def gen_guarded(idx: int) -> dict:
+    """Templates whose *unreached* branch raises when forced (plus reached variants)."""
+    r = rng("jinja-guarded", 1, idx)
+    feats = set()
+    raiser, kind = RAISERS[idx % len(RAISERS)]
+    reached = (idx // len(RAISERS)) % 6 == 5
+    guard = r.choice(GUARDS)
+    lead = r.choice(["select ", "SELECT\n    ", "select a, "])
+    tail = r.choice(["1 as one from t\n", "b from {{ v1 }}\n", "c\nfrom t where x = {{ v2 }}\n"])
+    if reached:
+        feats.add("reached_raiser")
+        src = lead + raiser + tail
+    else:
+        feats.add("guarded_raiser")
+        shape = r.randrange(3)
+        if shape == 0:
+            src = lead + "{% if " + guard + " %}" + raiser + "{% endif %}" + tail
+        elif shape == 1:
+            src = lead + "{% if " + guard + " %}" + raiser + "{% else %}d, {% endif %}" + tail
+        else:
+            src = "{% if " + guard + " %}" + lead + raiser + tail + "{% else %}" + lead + tail + "{% endif %}"
+    feats.add("raiser:" + kind)
+    return {"source": src, "features": sorted(feats), "context": CONTEXT}
+
+
 def gen(idx: int, flavour: str = "hostile") -> dict:
+    if flavour == "guarded":
+        return gen_guarded(idx)
     r = rng("jinja", VERSION, flavour, idx)
     g = _Gen(r)
     if flavour == "hostile":
